@@ -37,12 +37,16 @@ Definition omap {A B} (f : A -> B) (x : out A) : out B :=
 
 Definition is_ok {A} (x : out A) : bool := match x with Ok _ => true | _ => false end.
 
-(* Traverse a list with an effectful function. *)
-Fixpoint omapM {A B} (f : A -> out B) (l : list A) : out (list B) :=
-  match l with
-  | [] => Ok []
-  | x :: xs => y <- f x ;; ys <- omapM f xs ;; Ok (y :: ys)
-  end.
+(* Traverse a list with an effectful function (f outside the fix so that
+   nested recursion through it passes the guard checker). *)
+Section OMapM.
+  Context {A B : Type} (f : A -> out B).
+  Fixpoint omapM (l : list A) : out (list B) :=
+    match l with
+    | [] => Ok []
+    | x :: xs => y <- f x ;; ys <- omapM xs ;; Ok (y :: ys)
+    end.
+End OMapM.
 
 Definition zlen {A} (l : list A) : Z := Z.of_nat (length l).
 
